@@ -567,9 +567,12 @@ type sendCase struct {
 	// confirmation script
 	script    string // "" | advance | jump | never | lagging-never | lagging-then-advance | errors-then-advance | always-error | timed-advance | timed-late-advance
 	advanceAt int
-	delta     uint32  // jump: how far the seqno is ahead when it has advanced
-	advFrac   float64 // timed-*: the chain advances advFrac * waiting time after the message was sent
-	waitMs    int
+	// the lifetime of the message is not the caller's deadline: validUntil may lie before t + waiting time
+	lifetimeMs int     // SendV2: wallet built WithMessageLifetime(lifetimeMs) (0 = default)
+	rawValid   string  // RawSendV2: "" = a minute from now | "past" | "fixed-early" (a constant instant long ago)
+	delta      uint32  // jump: how far the seqno is ahead when it has advanced
+	advFrac    float64 // timed-*: the chain advances advFrac * waiting time after the message was sent
+	waitMs     int
 }
 
 func (c *sendCase) wit() map[string]any {
@@ -593,6 +596,12 @@ func (c *sendCase) wit() map[string]any {
 		}
 		if c.advFrac != 0 {
 			w["chain_advances_after_ms"] = int(c.advFrac * float64(c.waitMs))
+		}
+		if c.lifetimeMs != 0 {
+			w["message_lifetime_ms"] = c.lifetimeMs
+		}
+		if c.rawValid != "" {
+			w["valid_until"] = c.rawValid
 		}
 	}
 	return w
@@ -672,6 +681,9 @@ func newEnv(c *sendCase, w map[string]any) *sendEnv {
 	copy(e.rp.PubKey[:], e.pub)
 	opts, optForm := buildOpts(c.wc, c.sub, c.net, c.idx%4, R.Rng("send-opts", c.idx))
 	w["option_form"] = optForm
+	if c.lifetimeMs > 0 {
+		opts = append(opts, twallet.WithMessageLifetime(time.Duration(c.lifetimeMs)*time.Millisecond))
+	}
 	e.ch = &chain{}
 	var err error
 	if e.wal, err = twallet.New(priv, e.s.t, e.ch, opts...); err != nil {
@@ -1018,7 +1030,14 @@ func runSend(c *sendCase, last bool) (retry bool) {
 				sendErr = merr
 				return
 			}
-			_, sendErr = wal.RawSendV2(context.Background(), stored, time.Now().Add(time.Minute), []twallet.RawMessage{{Message: mc, Mode: mode}}, nil, wait)
+			validUntil := time.Now().Add(time.Minute)
+			switch c.rawValid {
+			case "past":
+				validUntil = time.Now().Add(-time.Hour)
+			case "fixed-early":
+				validUntil = time.Unix(1_700_000_000, 0)
+			}
+			_, sendErr = wal.RawSendV2(context.Background(), stored, validUntil, []twallet.RawMessage{{Message: mc, Mode: mode}}, nil, wait)
 			return
 		}
 		_, sendErr = wal.SendV2(context.Background(), wait, e.transfer)
@@ -1084,7 +1103,7 @@ func runSend(c *sendCase, last bool) (retry bool) {
 		}
 		return
 	}
-	R.Seen("confirmation_scripts", fmt.Sprintf("%s@%d", c.script, c.advanceAt))
+	R.Seen("confirmation_scripts", fmt.Sprintf("%s@%d%s", c.script, c.advanceAt, lifeTag(c)))
 	R.Count("confirmation_runs", 1)
 	for _, pl := range polls {
 		if pl.Addr != addr.ToRaw() {
@@ -1113,6 +1132,11 @@ func runSend(c *sendCase, last bool) (retry bool) {
 		// no poll was answered with a seqno past the one used: in this history the seqno never advanced
 		if sendErr == nil {
 			R.Violation("confirmed-without-advance@"+c.script, w)
+			return
+		}
+		if elapsed < wait {
+			// gave up before the caller's deadline (the harness clock started before the wallet's)
+			R.Violation("timeout-before-deadline@"+c.script+lifeTag(c), w)
 			return
 		}
 		// it never got as far as poll advanceAt
@@ -1155,6 +1179,10 @@ func runSend(c *sendCase, last bool) (retry bool) {
 			}
 			return
 		}
+		if elapsed < wait {
+			R.Violation("timeout-before-deadline@"+c.script+lifeTag(c), w)
+			return
+		}
 		// an error although the seqno had advanced before the deadline, and nobody looked after it had
 		worst := worstLateBetween(start, end)
 		w["worst_scheduling_lateness_ms"] = float64(worst.Microseconds()) / 1000
@@ -1177,6 +1205,17 @@ func runSend(c *sendCase, last bool) (retry bool) {
 		R.Violation("timeout-although-advanced-before-deadline@"+c.script, w)
 	}
 	return
+}
+
+// lifeTag names the relation of message lifetime and confirmation deadline in a signature.
+func lifeTag(c *sendCase) string {
+	switch {
+	case c.lifetimeMs != 0:
+		return "/message-lifetime-shorter-than-the-wait"
+	case c.rawValid != "":
+		return "/valid-until-" + c.rawValid
+	}
+	return ""
 }
 
 func hs(h cell.Hash) []byte { return h[:] }
@@ -1257,14 +1296,18 @@ func sectionSends() {
 			type sc struct {
 				script string
 				at     int
+				life   string // "" | "short-lifetime" (SendV2, WithMessageLifetime < wait) | "past" | "fixed-early" (RawSendV2 validUntil)
 			}
 			var scripts []sc
 			for _, j := range []int{1, 2, 3, 4, 5, 8, 9} {
-				scripts = append(scripts, sc{"advance", j})
+				scripts = append(scripts, sc{"advance", j, ""})
 			}
-			scripts = append(scripts, sc{"never", 0}, sc{"never", 0}, sc{"errors-then-advance", 2}, sc{"errors-then-advance", 4}, sc{"always-error", 0},
-				sc{"jump", 1}, sc{"jump", 3}, sc{"lagging-never", 0}, sc{"lagging-then-advance", 3},
-				sc{"timed-advance", 0}, sc{"timed-advance", 0}, sc{"timed-late-advance", 0})
+			scripts = append(scripts, sc{"never", 0, ""}, sc{"never", 0, ""}, sc{"errors-then-advance", 2, ""}, sc{"errors-then-advance", 4, ""}, sc{"always-error", 0, ""},
+				sc{"jump", 1, ""}, sc{"jump", 3, ""}, sc{"lagging-never", 0, ""}, sc{"lagging-then-advance", 3, ""},
+				sc{"timed-advance", 0, ""}, sc{"timed-advance", 0, ""}, sc{"timed-late-advance", 0, ""},
+				// validUntil before the caller's deadline: the wait is the caller's, not the message's
+				sc{"advance", 1, "past"}, sc{"advance", 2, "fixed-early"}, sc{"advance", 4, "short-lifetime"},
+				sc{"timed-advance", 0, "short-lifetime"}, sc{"never", 0, "short-lifetime"}, sc{"never", 0, "past"})
 			for _, x := range scripts {
 				rng := R.Rng("conf", idx)
 				c := &sendCase{idx: idx, spec: s, seed: rng.Bytes(32), script: x.script, advanceAt: x.at}
@@ -1294,6 +1337,18 @@ func sectionSends() {
 					c.advFrac = float64(rng.Range(82, 85)) / 100
 				}
 				c.raw = rng.Chance(1, 3)
+				switch x.life {
+				case "short-lifetime":
+					c.raw = false
+					// the message expires after 10-20 % of the wait; the chain advances later (30-50 %)
+					c.lifetimeMs = c.waitMs * rng.Range(10, 20) / 100
+					if x.script == "timed-advance" {
+						c.advFrac = float64(rng.Range(30, 50)) / 100
+					}
+				case "past", "fixed-early":
+					c.raw = true
+					c.rawValid = x.life
+				}
 				c.wc = mon.Pick(rng, []int{0, -1})
 				cases = append(cases, c)
 			}
@@ -1358,7 +1413,7 @@ func main() {
 		tier = os.Args[1]
 	}
 	R = mon.Start("C15", tier)
-	R.Rule = "addresses: every (version, key, workchain, sub-wallet, network) tuple is derived by the reference (published code parsed by the reference reader + data layout + StateInit + reference hash) and through New().GetAddress, GenerateWalletAddress, hash(GenerateStateInit), hash(Wallet.StateInit); a collision map over effective tuples; the options are passed in four forms (canonical order, shuffled, workchain 0 by omission, every option twice), workchains include the boundaries of the 8-bit field and, for versions whose data does not hold the workchain, values beyond it; sends: SendV2/RawSendV2 against a scripted chain, payload decoded by the reference (destination, seqno, init, signature); account data of active accounts in the minimal layout and with non-empty plugin/extension/query dictionaries; several sends through one Wallet value while the account changes; a failing state query (whatever is sent must agree with the real account); confirmation judged on the recorded poll history: poll-count scripts (advance by 1 or by more at poll 1..5/8/9, never, a lagging node reporting a smaller seqno, errors) and wall-clock scripts (the chain advances at <=50 % resp. 82-85 % of the waiting time whoever asks; an error then is a violation unless the lateness probe saw the machine stall); non-trivial = every compared address / send; distinct = distinct addresses and distinct (version, account state, seqno, script) classes"
+	R.Rule = "addresses: every (version, key, workchain, sub-wallet, network) tuple is derived by the reference (published code parsed by the reference reader + data layout + StateInit + reference hash) and through New().GetAddress, GenerateWalletAddress, hash(GenerateStateInit), hash(Wallet.StateInit); a collision map over effective tuples; the options are passed in four forms (canonical order, shuffled, workchain 0 by omission, every option twice), workchains include the boundaries of the 8-bit field and, for versions whose data does not hold the workchain, values beyond it; sends: SendV2/RawSendV2 against a scripted chain, payload decoded by the reference (destination, seqno, init, signature); account data of active accounts in the minimal layout and with non-empty plugin/extension/query dictionaries; several sends through one Wallet value while the account changes; a failing state query (whatever is sent must agree with the real account); confirmation judged on the recorded poll history: poll-count scripts (advance by 1 or by more at poll 1..5/8/9, never, a lagging node reporting a smaller seqno, errors) and a message lifetime (WithMessageLifetime, or validUntil given to RawSendV2 in the past / at a fixed early instant) shorter than the waiting time - the deadline is the caller's; wall-clock scripts (the chain advances at <=50 % resp. 82-85 % of the waiting time whoever asks; an error then is a violation unless the lateness probe saw the machine stall); non-trivial = every compared address / send; distinct = distinct addresses and distinct (version, account state, seqno, script) classes"
 	R.Assume("reference wallet model harness/ref/wallet validated at start-up against real address vectors, the v5 wallet-id examples and captured network messages")
 	R.Assume("V1/V2 wallets have no send implementation in the library (createSignedMsgBodyCell panics 'implement me'); send semantics are checked for V3R1..V5R1 and HighLoadV2R2, confirmation for the versions that have a seqno")
 	R.Assume("frozen accounts: what is attached is recorded, not asserted (the statement is silent)")
